@@ -37,7 +37,7 @@ for id in $IDS; do
 import json,sys
 c=sys.argv[1]
 try:
-    d=json.load(open('evidence/%s.json'%c))['coverage'].get('source_tie')
+    d=json.load(open('work/evidence_other_tree/%s.json'%c))['coverage'].get('source_tie')
     if d and d.get('failed'): print(c)
 except Exception: pass
 PY
